@@ -39,7 +39,9 @@ def eval_cases(tag, header, cases, shard=200, timeout=600, jobs=16,
     os.makedirs(GENDIR, exist_ok=True)
     files = []
     for k in range(0, len(cases), shard):
-        path = os.path.join(GENDIR, f"{tag}_{k // shard}.v")
+        # the process id keeps concurrent runs (seed sweeps, seeded-change
+        # runs) from overwriting each other's files
+        path = os.path.join(GENDIR, f"{tag}_p{os.getpid()}_{k // shard}.v")
         with open(path, "w") as f:
             f.write(header)
             f.write(defs)
@@ -65,6 +67,13 @@ def eval_cases(tag, header, cases, shard=200, timeout=600, jobs=16,
                            "." + os.path.basename(path)[:-2] + ".aux")
         if os.path.exists(aux):
             os.remove(aux)
+        # evaluated files are kept only when something went wrong
+        if rc == 0 and len(vals) == n and \
+                not os.environ.get("VERIF_KEEP_GEN"):
+            try:
+                os.remove(path)
+            except OSError:
+                pass
     return results, errors
 
 
